@@ -48,12 +48,12 @@ CLAIMED = {
          "cards_c (counting lemma by induction), total = stratum bound without style. Scoring clauses (phantom MVR never increases B; phantom CVR "
          "scored 1/2) proved per symbolic pair; structure-bounded scripts (<= 2 CVRs) and exhaustive native stand-in (<= 3-4 CVRs) kept.",
          'contests fixed at 2; input records are real CVRs (phantom=False); str(int) injective', '§4.C08'),
- "C09": ("other", "UNBOUNDED number of assertions per contest (2 contests): set_p_values / summarize_status / reset_p_values proved through record-loop "
+ "C09": ("other", "UNBOUNDED numbers of contests and of assertions per contest (nested summaries; reset_p_values: 2 contests): set_p_values / summarize_status / reset_p_values proved through record-loop "
          "summaries on the real loop bodies (each assertion records exactly what its test returned on its own data, with the bound installed "
          "first; proved = p <= the contest's own limit or proved before; measured risk = running maximum; 'complete iff every assertion of "
          "every contest has p <= that contest's limit' via induction lemmas: upper bound and attainment of the running maximum; reset gives "
          "p = 1, empty history, unconfirmed everywhere). Kept: the same three functions for 1-3 contests x 1-2 assertions with every p-value, "
-         "limit and flag symbolic.", "number of contests fixed at 2 in the unbounded proof; tests and mvrs_to_data through their interfaces", "§4.C09"),
+         "limit and flag symbolic.", "tests and mvrs_to_data through their interfaces; dict iteration order abstracted to positions", "§4.C09"),
  "C10": ("other", "Lemmas over the consistent_sampling contract (which the loop-invariant script proves of the real code), unbounded: with sizes n <= n' every "
          "card selected before is selected again, every contest's old observations are a prefix (in sample-number order) of its new ones, and the "
          "threshold filter keeps exactly the contest's first n_c cards; data extended => history extended (C05 obligations, proved). Bounded "
